@@ -3,7 +3,7 @@ from common import *
 
 ASSUMPTIONS = [
   "PROVED: the escaping codec, the cell-type codec (t= / <v> / <f> / cm per Cell x FormulaValue kind) and formula text by reduction to C09 (xlsx printer mode) + C23 (xlsx function names) + the character layer. ORACLE ONLY: styles.xml, theme, sheet properties, rows / columns, defined names, links, conditional formats, tables, doc props, the zip container — compared on whole workbooks (snapshot of vh_hist, styles by value)",
-  "the cell-type codec theorem has the law of the two Rust number primitives as an explicit premise (parse::<f64>(format!(\"{}\", v)) = v); the whole-workbook oracle exercises it on every number it generates (bit-exact comparison of cell values)",
+  "the cell-type codec theorem has the law of the two Rust number primitives as an explicit premise, on FINITE numbers (parse::<f64>(format!(\"{}\", v)) = v; a non-finite <v> is read as 0 since /repo 3c03706); the whole-workbook oracle exercises it on every number it generates (bit-exact comparison of cell values)",
   "the imported workbook is compared with the original saved in the internal format, reloaded and evaluated once more (not with the original's cached values): stale or order-dependent cached values (C07 / C31) are not charged to the xlsx round trip",
   "value-only differences (same formula text, same style) are treated as consequences when the same comparison has a classified root difference; alone they are reported as xlsx:value-changed",
   "what to_excel_string does before printing (remove_redundant_implicit_intersection, prefix_bound_variables) and what the reader does after parsing (add_implicit_intersection) is not modelled; it is covered by the whole-workbook oracle only",
